@@ -465,10 +465,11 @@ CONDITIONS = [
                          ["n == 2 and (%s) and sys0 == 1 and nt == %d and o1 <= 1 and o2 <= 1" % (_FAIL[0], t) for t in (2, 3, 4, 5, 6)] +
                          ["n == 4 and (%s) and sys0 == %d and thr0 == 2 and nt == 0 and o1 == 0 and o2 == 1 and o3 == %d and o4 <= 1" % (_FAIL[0], s, o) for s in range(3) for o in (2, 3, 4)] +
                          ["n == 4 and (%s) and sys0 == 1 and thr0 == 2 and nt == 0 and o1 == %d and o2 == 0 and o3 == 1 and o4 <= 1" % (_FAIL[0], o) for o in (2, 3, 4)],
-                "thorough": ["n == %d and pmask == %d and sys0 == %d and thr0 == %d and o1 == %d" % (n, m, s, t, o) for n in (3, 4) for m in range(8) for s in range(3) for t in range(3) for o in range(5)]},
+                "thorough": ["n == 3 and pmask == %d and sys0 == %d and thr0 == %d and o1 == %d" % (m, s, t, o) for m in (0, 2, 5, 7) for s in range(3) for t in (0, 2) for o in range(5)] +
+                            ["n == 4 and pmask == %d and sys0 == %d and thr0 == 2 and nt <= 1 and o1 == 0 and o2 == 1" % (m, s) for m in (0, 7) for s in range(3)]},
          twins=["reach@n == 2 and (%s) and sys0 == 1 and nt <= 1 and o1 <= 1 and o2 <= 1 and o3 <= 1" % _FAIL[0], "mutant:skip_threading_restore@n == 2 and (%s) and sys0 == 1 and nt <= 1 and o1 <= 1 and o2 <= 1 and o3 <= 1" % _FAIL[0],
                 "mutant:restart_installs_again@n == 2 and (%s) and sys0 == 1 and nt <= 1 and o1 <= 1 and o2 <= 1 and o3 <= 1" % _FAIL[0], "mutant:shutdown_unguarded@n == 2 and (%s) and sys0 == 1 and nt <= 1 and o1 <= 1 and o2 <= 1 and o3 <= 1" % _FAIL[1]],
          bounds="histories of 2-3 (thorough 3-4) start/shutdown calls, plus 4-operation histories in which the application replaces the hooks between two cycles; pre-existing sys and threading trace functions each in {None, A, B}; NO_TRACE absent / True / False / 4 text values (start and shutdown must agree); "
-                "failure subsets over {poll, flush, timer stop, 3 plugin shutdowns} (quick: 5 representative subsets; thorough: all plugin masks x all others), "
+                "failure subsets over {poll, flush, timer stop, 3 plugin shutdowns} (quick: 5 representative subsets; thorough: 4 plugin masks x all others over every history of 3, and the histories of 4 that begin start, shutdown), "
                 "failing with Exception or KeyboardInterrupt"),
 ]
